@@ -84,6 +84,15 @@ def check_corpus(R, X, vocab, minocc, mcc, extra):
         want = [[chr(int(c)) if c <= v.max_char_code_ else v.tokens_[int(c) - v.max_char_code_ - 1] for c in e] for e in enc]
         if [list(t) for t in tok] != want:
             R.fail("tokens-output", "'tokens' output %r is not the code strings of 'sequences' %r" % (tok, want), **cfg)
+        # the same for transform (training strings and new strings), against the sequences transform returns
+        allx = list(X) + list(extra)
+        tok2 = vt.transform(allx)
+        seq2 = v.transform(allx)
+        want2 = [[chr(int(c)) if c <= v.max_char_code_ else v.tokens_[int(c) - v.max_char_code_ - 1] for c in e] for e in seq2]
+        if [list(t) for t in tok2] != want2:
+            R.fail("tokens-transform", "transform 'tokens' output %r is not the code strings of the 'sequences' output %r" % ([list(t) for t in tok2], want2), **dict(cfg, new=extra))
+        elif any("".join(t) != expected_text(s_, v) for t, s_ in zip(tok2, allx)):
+            R.fail("tokens-transform-lossy", "concatenated 'tokens' of transform do not reproduce the string", **dict(cfg, new=extra))
         vm = BytePairEncodingVectorizer(max_vocab_size=vocab, min_token_occurrence=minocc, return_type="matrix", max_char_code=mcc)
         if any(len(e) for e in enc):
             M = vm.fit_transform(list(X))
